@@ -1,9 +1,10 @@
 SPECIFICATION Spec
-CONSTANTS N = 86400 MaxSteps = 4 InvertStartBySecTruncation = FALSE CaptureAtJoinEpoch = FALSE CacheIgnoresEpoch = FALSE MaxJoinSteps = 3
+CONSTANTS N = 86400 MaxSteps = 4 InvertStartBySecTruncation = FALSE CaptureAtJoinEpoch = FALSE CacheIgnoresEpoch = FALSE LocalTimeEpoch = FALSE MaxJoinSteps = 2
 CONSTANT Lons <- LonsAll
 CONSTANT Theta0s <- ThetasAll
 CONSTANT StartSecs <- Secs60
 CONSTANT PriorAngles <- OnePrior
+CONSTANT Zones <- ZonesUtc
 CONSTANT Plans <- NoPlan
 CONSTANT Dts <- DtsQuick
 INVARIANT SiteEpochAgrees
